@@ -57,7 +57,7 @@ def tasks(tier, seed):
     out.append({"fn": "numbering", "kwargs": {}, "label": "number"})
     out.append({"fn": "names", "kwargs": {}, "label": "names"})
     out.append({"fn": "save_files", "kwargs": {}, "label": "save_to_files"})
-    for which, n in (("3", 3), ("4", 4), ("5", 5)):
+    for which, n in (("3", 3), ("4", 4), ("5", 5), ("pictures", 4)):
         for rot in range(n):
             if which == "3" and rot == 0:
                 continue
@@ -334,6 +334,8 @@ SAVE_LISTS = {
     "3": ["detector_image.fits", "detector_image.npy", "detector_pixel.npy"],
     "4": ["detector_image.fits", "detector_pixel.npy", "detector_image.npy", "detector_pixel.fits"],
     "5": ["detector_pixel.npy", "detector_image.fits", "detector_signal.npy", "detector_image.npy", "detector_pixel.fits"],
+    # picture formats and their aliases: the name that is reported is the name that is written
+    "pictures": ["detector_image.jpeg", "detector_image.fits", "detector_image.jpg", "detector_pixel.npy"],
 }
 
 
